@@ -230,7 +230,12 @@ def returns_base_only_when_identity(body, tb):
             if t["k"] != "switch":
                 continue
             d = tb.operand(t["discr"], bi, len(body.blocks[bi]["stmts"]))
-            if d[0] == "call" and d[1].name == "is_zero" and strip(d[2][0]) in (("param", 1), ("init", ("deref", 1))):
+            base_is_identity = d[0] == "call" and d[1].name == "is_zero" and strip(d[2][0]) in (("param", 1), ("init", ("deref", 1)))
+            SC = (("param", 2), ("init", ("deref", 2)))
+            scalar_is_one = (d[0] == "call" and d[1].name == "is_one" and strip(d[2][0]) in SC) or \
+                            (d[0] == "call" and d[1].name == "eq" and len(d[2]) == 2 and ((strip(d[2][0]) in SC and strip(d[2][1])[0] == "call" and strip(d[2][1])[1].name == "one") or
+                                                                                       (strip(d[2][1]) in SC and strip(d[2][0])[0] == "call" and strip(d[2][0])[1].name == "one")))
+            if base_is_identity or scalar_is_one:
                 tt = t["otherwise"] if any(int(v) == 0 for v, _ in t["arms"]) else None
                 if tt is not None and body.pred()[tt] == [bi] and body.dominates(tt, sb):
                     ok = True
